@@ -1289,7 +1289,7 @@ fn suffix_mutants(t: &mut Tally<'_>, world: &World, wi: usize, w: WorldlineId) {
 }
 
 fn plan(args: &Args) -> Vec<(u64, u64)> {
-    let cases = args.by_tier(6u64, 40);
+    let cases = args.by_tier(6u64, 160);
     let mut v = Vec::new();
     for c in 0..cases {
         for p in 0..PARTS {
